@@ -25,8 +25,8 @@ pub async fn run_name_case(addr: SocketAddr, id: &RawIdentity, c: &NameCase) -> 
         2 => reg_rep(&c.ns, &c.t),
         _ => reg_req(&c.ns, &c.t),
     };
-    let reply = match raw_open(&conn, f, Duration::from_secs(8)).await {
-        Ok((_s, r)) => r,
+    let (mut stream, reply) = match raw_open(&conn, f, Duration::from_secs(8)).await {
+        Ok(x) => x,
         Err(e) => return Outcome::Inconclusive(format!("open: {e}")),
     };
     // a '/' inside a component can never be part of a valid name
@@ -38,6 +38,11 @@ pub async fn run_name_case(addr: SocketAddr, id: &RawIdentity, c: &NameCase) -> 
         (FirstReply::Frame(Frame::Error(e)), Some(false)) => {
             if e.code != INVALID_TOPIC_NAME {
                 return Outcome::fail("wrong-error-code-for-invalid-name", format!("{name}: refused with code {} instead of INVALID_TOPIC_NAME", e.code));
+            }
+            // "instead of creating the topic": the refusal is the end of that stream
+            match tokio::time::timeout(Duration::from_millis(400), stream.next()).await {
+                Ok(Some(Ok(f))) => return Outcome::fail("served-after-refusal", format!("{name}: refused with INVALID_TOPIC_NAME, but the stream then received {f:?} (the registration was carried out all the same)")),
+                _ => {}
             }
             labels.push("refused-invalid");
         }
